@@ -284,4 +284,242 @@ theorem length_le_rows (k L S : Nat) (strict : Bool) (n : Nat) (hk : 0 < k) (hS 
   unfold smallArea at h ⊢
   omega
 
+
+/-! ### decoder -/
+
+theorem readSegs_append (shards : List (List Nat)) (a b : List (Nat × Nat × Nat)) (da db : List Nat)
+    (ha : readSegs shards a = some da) (hb : readSegs shards b = some db) :
+    readSegs shards (a ++ b) = some (da ++ db) := by
+  induction a generalizing da with
+  | nil => simp [readSegs] at ha; subst ha; simpa using hb
+  | cons x rest ih =>
+    obtain ⟨i, o, l⟩ := x
+    simp only [List.cons_append, readSegs] at ha ⊢
+    split at ha
+    · cases ha
+    · rename_i d hd
+      split at ha
+      · cases ha
+      · rename_i ds hds
+        rw [ih ds hds]
+        simp only [Option.some.injEq] at ha ⊢
+        rw [← ha, List.append_assoc]
+
+/-- one segment inside the large area of a laid-out shard -/
+theorem readSeg_large (k L S nL len : Nat) (D : List Nat) (shards : List (List Nat))
+    (hsh : IsLayout k L S nL len D shards) (hlen : nL * L ≤ len)
+    (r i : Nat) (hr : r < nL) (hi : i < k) (hD : r * (k * L) + i * L + L ≤ D.length) :
+    readExact (shards.getD i []) (r * L) L = some ((D.drop (r * (k * L) + i * L)).take L) := by
+  have h1 := succ_mul_le r nL L hr
+  rw [hsh i hi]
+  unfold readExact
+  rw [layoutShard_length, if_pos (by omega)]
+  unfold layoutShard
+  rw [map_range_slice _ _ _ _ (by omega), slice_eq_map D _ L hD]
+  congr 1
+  apply List.map_congr_left
+  intro t ht
+  have ht' : t < L := by simpa using ht
+  have hdm := div_mod_block L r t ht'
+  unfold srcPos
+  rw [if_pos (by omega), hdm.1, hdm.2]
+
+/-- one segment inside the small area -/
+theorem readSeg_small (k L S nL nS len : Nat) (D : List Nat) (shards : List (List Nat))
+    (hsh : IsLayout k L S nL len D shards) (hlen : len = nL * L + nS * S)
+    (r i l : Nat) (hr : r < nS) (hi : i < k) (hl : l ≤ S)
+    (hD : nL * (k * L) + r * (k * S) + i * S + l ≤ D.length) :
+    readExact (shards.getD i []) (nL * L + r * S) l = some ((D.drop (nL * (k * L) + r * (k * S) + i * S)).take l) := by
+  have h1 := succ_mul_le r nS S hr
+  rw [hsh i hi]
+  unfold readExact
+  rw [layoutShard_length, if_pos (by omega)]
+  unfold layoutShard
+  rw [map_range_slice _ _ _ _ (by omega), slice_eq_map D _ l hD]
+  congr 1
+  apply List.map_congr_left
+  intro t ht
+  have ht' : t < l := by simpa using ht
+  have hp : nL * L + r * S + t - nL * L = r * S + t := by omega
+  have hdm := div_mod_block S r t (by omega)
+  unfold srcPos
+  rw [if_neg (by omega), hp, hdm.1, hdm.2]
+
+/-- a whole row of large blocks -/
+theorem readSegs_large_row (k L S nL len : Nat) (D : List Nat) (shards : List (List Nat))
+    (hsh : IsLayout k L S nL len D shards) (hlen : nL * L ≤ len)
+    (r : Nat) (hr : r < nL) (hD : r * (k * L) + k * L ≤ D.length) :
+    ∀ j, j ≤ k → readSegs shards ((List.range j).map fun i => (i, r * L, L))
+      = some ((D.drop (r * (k * L))).take (j * L)) := by
+  intro j
+  induction j with
+  | zero => intro _; simp [readSegs]
+  | succ j ih =>
+    intro hj
+    have hjL : j * L + L ≤ k * L := succ_mul_le j k L (by omega)
+    rw [List.range_succ, List.map_append]
+    have hlast : readSegs shards ([j].map fun i => (i, r * L, L)) = some ((D.drop (r * (k * L) + j * L)).take L) := by
+      simp only [List.map_cons, List.map_nil, readSegs]
+      rw [readSeg_large k L S nL len D shards hsh hlen r j hr (by omega) (by omega)]
+      simp
+    rw [readSegs_append _ _ _ _ _ (ih (by omega)) hlast, take_drop_append, Nat.add_mul]
+    simp
+
+theorem nLargeRows_step (k L : Nat) (strict : Bool) (rem : Nat) (hkL : 0 < k * L) :
+    (guardHolds strict rem (k * L) = true →
+      nLargeRows k L strict rem = nLargeRows k L strict (rem - k * L) + 1 ∧ k * L ≤ rem) ∧
+    (guardHolds strict rem (k * L) = false → nLargeRows k L strict rem = 0) := by
+  unfold guardHolds nLargeRows
+  cases strict with
+  | true =>
+    simp only [if_true, decide_eq_true_eq, decide_eq_false_iff_not]
+    constructor
+    · intro h
+      have := Nat.div_eq_sub_div hkL (show k * L ≤ rem - 1 by omega)
+      have h2 : rem - 1 - k * L = rem - k * L - 1 := by omega
+      rw [this, h2]; omega
+    · intro h
+      exact Nat.div_eq_of_lt (by omega)
+  | false =>
+    simp only [Bool.false_eq_true, if_false, decide_eq_true_eq, decide_eq_false_iff_not]
+    constructor
+    · intro h
+      have := Nat.div_eq_sub_div hkL h
+      omega
+    · intro h
+      exact Nat.div_eq_of_lt (by omega)
+
+theorem decLargeLoop_read (k L S nL len n : Nat) (strict : Bool) (D : List Nat) (shards : List (List Nat))
+    (hsh : IsLayout k L S nL len D shards) (hlen : nL * L ≤ len) (hkL : 0 < k * L) (hn : n = D.length) :
+    ∀ fuel r rem, rem ≤ fuel → r + nLargeRows k L strict rem = nL → rem + r * (k * L) = n →
+      readSegs shards (decLargeLoop k L strict fuel (r * L) rem).1
+          = some ((D.drop (r * (k * L))).take (nLargeRows k L strict rem * (k * L))) ∧
+      (decLargeLoop k L strict fuel (r * L) rem).2.1 = nL * L ∧
+      (decLargeLoop k L strict fuel (r * L) rem).2.2 + nL * (k * L) = n := by
+  intro fuel
+  induction fuel with
+  | zero =>
+    intro r rem hf hq hrem
+    have h0 : rem = 0 := by omega
+    subst h0
+    have hz : nLargeRows k L strict 0 = 0 := by unfold nLargeRows; cases strict <;> simp
+    rw [hz] at hq ⊢
+    simp only [decLargeLoop, readSegs, Nat.zero_mul, List.take_zero, true_and]
+    have : r = nL := by omega
+    subst this; omega
+  | succ f ih =>
+    intro r rem hf hq hrem
+    have hstep := nLargeRows_step k L strict rem hkL
+    unfold decLargeLoop
+    cases hg : guardHolds strict rem (k * L) with
+    | false =>
+      have hz := hstep.2 hg
+      rw [hz] at hq ⊢
+      simp only [Bool.false_eq_true, if_false, readSegs, Nat.zero_mul, List.take_zero, true_and]
+      have : r = nL := by omega
+      subst this; omega
+    | true =>
+      obtain ⟨hq1, hge⟩ := hstep.1 hg
+      simp only [if_true]
+      have hrL : (r + 1) * L = r * L + L := by rw [Nat.add_mul]; omega
+      have hrk : (r + 1) * (k * L) = r * (k * L) + k * L := by rw [Nat.add_mul]; omega
+      have hih := ih (r + 1) (rem - k * L) (by omega) (by omega) (by omega)
+      rw [← hrL]
+      refine ⟨?_, hih.2.1, hih.2.2⟩
+      have hrow := readSegs_large_row k L S nL len D shards hsh hlen r (by omega) (by omega) k (Nat.le_refl _)
+      rw [readSegs_append _ _ _ _ _ hrow hih.1, hrk, take_drop_append, hq1, Nat.add_mul]
+      congr 2; omega
+
+
+theorem decSmallRow_read (k L S nL nS len n r : Nat) (D : List Nat) (shards : List (List Nat))
+    (hsh : IsLayout k L S nL len D shards) (hlen : len = nL * L + nS * S) (hS : 0 < S)
+    (hn : n = D.length) (hn2 : n ≤ nL * (k * L) + nS * (k * S)) :
+    ∀ cnt i rem outpos, i + cnt = k → rem + outpos = n →
+      (0 < rem → outpos = nL * (k * L) + r * (k * S) + i * S) →
+      readSegs shards (decSmallRow S (nL * L + r * S) cnt i rem).1
+          = some ((D.drop outpos).take (rem - (decSmallRow S (nL * L + r * S) cnt i rem).2)) ∧
+      (decSmallRow S (nL * L + r * S) cnt i rem).2 = rem - min rem (cnt * S) := by
+  intro cnt
+  induction cnt with
+  | zero => intro i rem outpos _ _ _; simp [decSmallRow, readSegs]
+  | succ c ih =>
+    intro i rem outpos hik hrem hout
+    unfold decSmallRow
+    have hcS : (c + 1) * S = c * S + S := by rw [Nat.add_mul]; omega
+    by_cases h0 : rem = 0
+    · subst h0
+      have hih := ih (i + 1) 0 outpos (by omega) hrem (by intro h; omega)
+      simp only [Nat.zero_min, Nat.sub_zero, if_true] at hih ⊢
+      exact hih
+    · have hpos : 0 < rem := by omega
+      have ho := hout hpos
+      have htr : min rem S ≠ 0 := by omega
+      have hiS : (i + 1) * S = i * S + S := by rw [Nat.add_mul]; omega
+      have hih := ih (i + 1) (rem - min rem S) (outpos + min rem S) (by omega) (by omega) (by intro h; omega)
+      simp only [if_neg htr, readSegs]
+      have hr : r < nS := by
+        apply lt_of_mul_lt r nS (k * S)
+        omega
+      rw [readSeg_small k L S nL nS len D shards hsh hlen r i (min rem S) hr (by omega) (by omega) (by omega), hih.1]
+      refine ⟨?_, by rw [hih.2]; omega⟩
+      simp only [Option.some.injEq]
+      rw [← ho, take_drop_append, hih.2]
+      congr 1; omega
+
+theorem decSmallLoop_read (k L S nL nS len n : Nat) (D : List Nat) (shards : List (List Nat))
+    (hsh : IsLayout k L S nL len D shards) (hlen : len = nL * L + nS * S) (hS : 0 < S) (hk : 0 < k)
+    (hn : n = D.length) (hn2 : n ≤ nL * (k * L) + nS * (k * S)) :
+    ∀ fuel r rem outpos, rem ≤ fuel → rem + outpos = n →
+      (0 < rem → outpos = nL * (k * L) + r * (k * S)) →
+      readSegs shards (decSmallLoop k S fuel (nL * L + r * S) rem) = some ((D.drop outpos).take rem) := by
+  intro fuel
+  induction fuel with
+  | zero =>
+    intro r rem outpos hf _ _
+    have : rem = 0 := by omega
+    subst this; simp [decSmallLoop, readSegs]
+  | succ f ih =>
+    intro r rem outpos hf hrem hout
+    unfold decSmallLoop
+    by_cases h0 : 0 < rem
+    · rw [if_pos h0]
+      have ho := hout h0
+      have hkS : 0 < k * S := Nat.mul_pos hk hS
+      have hrow := decSmallRow_read k L S nL nS len n r D shards hsh hlen hS hn hn2 k 0 rem outpos (by omega) hrem
+        (by intro _; omega)
+      have hr1 : (r + 1) * S = r * S + S := by rw [Nat.add_mul]; omega
+      have hr2 : (r + 1) * (k * S) = r * (k * S) + k * S := by rw [Nat.add_mul]; omega
+      have hpos : nL * L + r * S + S = nL * L + (r + 1) * S := by omega
+      rw [hpos]
+      have hrest := ih (r + 1) (decSmallRow S (nL * L + r * S) k 0 rem).2
+        (outpos + (rem - (decSmallRow S (nL * L + r * S) k 0 rem).2))
+        (by rw [hrow.2]; omega) (by rw [hrow.2]; omega) (by rw [hrow.2]; intro h; omega)
+      rw [readSegs_append _ _ _ _ _ hrow.1 hrest, take_drop_append]
+      congr 2; rw [hrow.2]; omega
+    · rw [if_neg h0]
+      have : rem = 0 := by omega
+      subst this; simp [readSegs]
+
+theorem decode_layout (k L S : Nat) (es ds : Bool) (D : List Nat) (hk : 0 < k) (hL : 0 < L) (hS : 0 < S)
+    (hagree : nLargeRows k L ds D.length = nLargeRows k L es D.length) :
+    decode k L S ds (layout k L S es D) D.length = some D := by
+  have hkL : 0 < k * L := Nat.mul_pos hk hL
+  have hsh := layout_isLayout k L S es D
+  have hn2 := length_le_rows k L S es D.length hk hS
+  have hlen : shardLen k L S es D.length = nLargeRows k L es D.length * L + nSmallRows k L S es D.length * S := rfl
+  have hlarge := decLargeLoop_read k L S _ _ D.length ds D _ hsh (by omega) hkL rfl D.length 0 D.length
+    (Nat.le_refl _) (by omega) (by omega)
+  simp only [Nat.zero_mul] at hlarge
+  unfold decode decodeSegs
+  obtain ⟨h1, h2, h3⟩ := hlarge
+  simp only [h2]
+  have hsmall := decSmallLoop_read k L S _ _ _ D.length D _ hsh hlen hS hk rfl hn2
+    (decLargeLoop k L ds D.length 0 D.length).2.2 0 (decLargeLoop k L ds D.length 0 D.length).2.2
+    (nLargeRows k L es D.length * (k * L)) (Nat.le_refl _) (by omega) (by intro _; omega)
+  simp only [Nat.zero_mul, Nat.add_zero] at hsmall
+  rw [readSegs_append _ _ _ _ _ h1 hsmall, hagree]
+  simp only [List.drop_zero, Option.some.injEq]
+  have : (decLargeLoop k L ds D.length 0 D.length).2.2 = D.length - nLargeRows k L es D.length * (k * L) := by omega
+  rw [this, List.take_of_length_le (l := D.drop _) (by simp), List.take_append_drop]
+
 end SwV.Lemmas.C06
